@@ -8,8 +8,9 @@ import (
 
 func TestReplay(t *testing.T) {
 	verif.ReplayMain(map[string]func(){
-		"HarnessPanicBatch": HarnessPanicBatch,
-		"HarnessPanicHTTP":  HarnessPanicHTTP,
-		"HarnessPanicWS":    HarnessPanicWS,
+		"HarnessPanicBatch":       HarnessPanicBatch,
+		"HarnessPanicHTTP":        HarnessPanicHTTP,
+		"HarnessPanicThenOverlap": HarnessPanicThenOverlap,
+		"HarnessPanicWS":          HarnessPanicWS,
 	})
 }
